@@ -425,6 +425,31 @@ impl Target for CacheTarget {
         self.cache = None;
         json!({"start": true})
     }
+    /// Value and availability answers must be exactly the model's.  For the provider calls
+    /// C20 / C09 say: a query whose answer is cached makes NO call; candidates of a package
+    /// and dependencies of a solvable are requested exactly when the model says so (never
+    /// twice, never needlessly).  How many filter_candidates / sort_candidates calls a
+    /// first-time query needs is the implementation's business (e.g. a non-matching list
+    /// computed as the complement of a cached matching list).
+    fn conforms(&self, expected: &Value, got: &Value) -> bool {
+        if expected.get("calls").is_none() || got.get("calls").is_none() {
+            return expected == got;
+        }
+        if expected["val"] != got["val"] || expected["avail"] != got["avail"] {
+            return false;
+        }
+        let fetches = |v: &Value| -> Vec<String> {
+            let mut f: Vec<String> = v["calls"]
+                .as_array()
+                .map(|a| a.iter().filter(|c| c[0] == "cands" || c[0] == "deps").map(|c| c.to_string()).collect())
+                .unwrap_or_default();
+            f.sort();
+            f
+        };
+        let n_exp = expected["calls"].as_array().map(|a| a.len()).unwrap_or(0);
+        let n_got = got["calls"].as_array().map(|a| a.len()).unwrap_or(0);
+        (n_exp > 0 || n_got == 0) && fetches(expected) == fetches(got)
+    }
     fn apply(&mut self, op: &Value) -> Value {
         use futures::FutureExt;
         use resolvo::{Dependencies, Requirement};
